@@ -271,7 +271,7 @@ func C11(r *drv.Run) {
 		pg := newProcGen(rng)
 		pg.strVar, pg.numVar, pg.boolVar = []string{"s1", "s2", "cap"}, []string{"n1", "n2"}, []string{"b1"}
 		var ex []c11Expr
-		for len(ex) < 6 {
+		for len(ex) < 4 {
 			t := []proc.Type{proc.TStr, proc.TNum, proc.TBool}[rng.Intn(3)]
 			e := pg.typed(t, 1+rng.Intn(3))
 			if proc.TypeOf(e, c11TypeEnv) == proc.TErr {
@@ -319,6 +319,17 @@ func C11(r *drv.Run) {
 			if up := proc.RenderCase(e, false, 1+i%2); up != proc.Render(e, false) {
 				ex = append(ex, c11Expr{e, up, "tree-keywords-in-another-case"})
 			}
+			if rng.Chance(1, 3) {
+				// the same tokens with a comment in every gap: glued block comments, block comments between blanks, line comments
+				sep := []string{"--(c)--", " --( c )-- ", " -- c\n", "--()--", "\n--(a\nb)--\n"}[rng.Intn(5)]
+				toks := gen.Significant(gen.Tokenize(proc.Render(e, rng.Bool())))
+				for _, tk := range toks {
+					if tk.Text == "-" && sep[0] == '-' {
+						sep = " " + sep + " " // (a minus sign glued to the dashes of a comment would read as other tokens)
+					}
+				}
+				ex = append(ex, c11Expr{e, gen.JoinWith(toks, sep), "tree-with-a-comment-in-every-gap"})
+			}
 		}
 		src, text := c11Program(ex)
 		c := wire.Case{Op: "run", Src: []byte(src), Texts: [][]byte{[]byte(text)}, StepBudget: 200000}
@@ -331,7 +342,7 @@ func C11(r *drv.Run) {
 	})
 	c11Bytes(r)
 	if r.NViolations() == 0 {
-		for _, k := range []string{"expr_tree-minimal-parens", "expr_tree-full-parens", "expr_string +", "expr_number ==", "expr_bool and", "expr_head", "expr_string -"} {
+		for _, k := range []string{"expr_tree-minimal-parens", "expr_tree-full-parens", "expr_tree-with-a-comment-in-every-gap", "expr_string +", "expr_number ==", "expr_bool and", "expr_head", "expr_string -"} {
 			if r.Counter(k) == 0 {
 				r.Inconclusive("coverage floor: " + k + " = 0")
 			}
